@@ -109,11 +109,56 @@ def run(chk):
         if np.abs(back - base).max() > 2e3 * eps:
             chk.fail("not-covariant", f"{method}: simulating in a rotated basis and rotating back differs by {np.abs(back - base).max():.2e}", info)
 
+    # ---- (d) mean-field TEMPO with several species, EACH rotated by its own unitary ---------------------------------
+    # (same spectrum in different bases, independent spectra): every species' state must come back rotated, the field unchanged
+    for it in range(10 if (thorough or chk.disagreements or chk.broken) else 3):
+        d = rng.choice([2, 2, 3])
+        ns = rng.choice([2, 2, 3])
+        eps = 1e-7
+        par = oqupy.TempoParameters(dt=0.1, epsrel=eps, dkmax=rng.choice([None, 2]))
+        unique = rng.random() < 0.5
+        ev0 = [rng.choice([-1.0, 0.0, 0.5, 1.0, 1.0]) for _ in range(d)]
+        if len(set(ev0)) == 1:
+            ev0[0] += 1.0
+        specs = []
+        for k in range(ns):
+            ev = list(ev0) if (k == 0 or rng.random() < 0.7) else [rng.choice([-1.0, 0.0, 0.5, 1.0]) for _ in range(d)]
+            a = np.array([[rng.gauss(0, 1) + 1j * rng.gauss(0, 1) for _ in range(d)] for _ in range(d)])
+            H = (a + a.conj().T) / 4
+            r = a @ a.conj().T
+            Vk = np.eye(d, dtype=complex) if k == 0 and rng.random() < 0.5 else (haar(rng, d) if rng.random() < 0.7 else structured(rng, d))
+            specs.append({"O": np.diag(ev).astype(complex), "H": H, "rho": r / np.trace(r), "V": Vk})
+        info = {"kind": "covariance", "method": "meanfield-several-species", "d": d, "species": ns, "eigenvalues": ev0, "unique": unique}
+
+        def solve_mf(rot):
+            Hs = [(sp["V"] @ sp["H"] @ sp["V"].conj().T) if rot else sp["H"] for sp in specs]
+            Os = [(sp["V"] @ sp["O"] @ sp["V"].conj().T) if rot else sp["O"] for sp in specs]
+            rs = [(sp["V"] @ sp["rho"] @ sp["V"].conj().T) if rot else sp["rho"] for sp in specs]
+            ss = [oqupy.TimeDependentSystemWithField(lambda t, f, X=X: X + 0.1 * f.real * X @ X) for X in Hs]
+            mfs = oqupy.MeanFieldSystem(ss, field_eom=lambda t, st, f: -0.1 * f + 0.2 * sum(np.trace(x @ X) for x, X in zip(st, Hs)))
+            baths = [oqupy.Bath((Oo + Oo.conj().T) / 2, _corr) for Oo in Os]
+            dyn = quiet(oqupy.MeanFieldTempo(mfs, baths, par, rs, 0.2 + 0j, 0.0, unique=unique).compute, 0.4, progress_type="silent")
+            return [np.array(sd.states) for sd in dyn.system_dynamics], np.array(dyn.fields)
+        try:
+            base_s, base_f = solve_mf(False)
+            rot_s, rot_f = solve_mf(True)
+        except Exception as ex:
+            chk.fail("covariance-raises", f"MeanFieldTempo ({ns} species) raises {ex!r}", info)
+            continue
+        chk.search_cases += 1
+        chk.count("cov_meanfield_several_species")
+        chk.case(info, ("covmf", d, ns, tuple(ev0), unique, it))
+        dev = np.abs(rot_f - base_f).max()
+        for sp, b_, r_ in zip(specs, base_s, rot_s):
+            dev = max(dev, np.abs(np.array([sp["V"].conj().T @ x @ sp["V"] for x in r_]) - b_).max())
+        if dev > 2e3 * eps:
+            chk.fail("not-covariant", f"mean-field TEMPO with {ns} species, each written in its own basis: states rotated back / field differ by {dev:.2e}", info)
+
     return chk.finish(
         level="proof",
         trusted=["models: Model/SuperOps.v (index-pair superoperators), Model/PathSum.v, Model/Schedule.v",
                  "LAPACK's eigh is not modelled: the theorem is conditional on 'U unitary', which the search checks on the real Bath"],
         rule="back-end path sums with integer basis-change matrices (as C02); Bath on Hermitian operators of dimension 2-5 with repeated / zero "
              "eigenvalues conjugated by Haar-random and structured (permutation, block, phase) unitaries; covariance of Tempo, PtTempo, "
-             "MeanFieldTempo under a random unitary; distinct = distinct configuration",
+             "MeanFieldTempo under a random unitary; MeanFieldTempo with 2-3 species each rotated by its own unitary; distinct = distinct configuration",
         assumptions=["the eigen-solver contract (unitary eigenvectors, real eigenvalues) is checked on the implementation, not proved"])
